@@ -32,6 +32,7 @@ def run(F, R, ctx):
     symbol_write_rule(F, R)
     escape_agreement_rule(F, R)
     complex_sign_rule(F, R)
+    delimiter_agreement_rule(F, R)
 
 
 def _run(F, R, ctx):
@@ -382,3 +383,39 @@ def complex_sign_rule(F, R):
                "(imaginary_is_negative without imaginary_is_finite): (write 1+inf.0i) gives 1++inf.0i, which reads back as a "
                "symbol" % f.short(), f.loc(), sample=True)
     R.floor("C12.j", "printers of complex numbers", len(cs), 2)
+
+
+def delimiter_agreement_rule(F, R):
+    R.rule("C12.d", "one set of delimiters (sibling agreement inside the lexer): every character at which Lexer::read_word stops "
+                    "without consuming it — a parenthesis, bracket or brace, a quote mark, a string quote, a comma, a comment "
+                    "— also finishes a numeric literal in Lexer::read_number (its arm tries to parse what was read so far "
+                    "instead of consuming the character or falling back to read_word). A delimiter missing there turns the "
+                    "number before it into an identifier: `(+ 1 2;comment` reads the symbol 2")
+    def char_arms(fn):
+        """char -> (consumes: the arm reaches Lexer::eat before the next test of a character, target block)"""
+        out = {}
+        sws = [i for i, b in enumerate(fn.blocks) if b["k"] == "switch" and b["on"] == "char" and not b["c"]]
+        eats = set(fn.call_blocks(r"\{impl Lexer(<'a>)?\}::eat$"))
+        for sb in sws:
+            for v, t in fn.blocks[sb]["targets"]:
+                try:
+                    ch = chr(int(v))
+                except ValueError:
+                    continue
+                region = fn.reachable_from([t], avoid=set(sws))
+                out[ch] = (bool(region & eats) or t in eats, t, region)
+        return out
+    rw = F.one(r"^steel_parser::lexer::\{impl Lexer(<'a>)?\}::read_word$")
+    rn = F.one(r"^steel_parser::lexer::\{impl Lexer(<'a>)?\}::read_number$")
+    wa, na = char_arms(rw), char_arms(rn)
+    delims = sorted(ch for ch, (consumes, _, _) in wa.items() if not consumes)
+    if len(delims) < 8:
+        raise CheckError("C12.d: only %d delimiters recognised in Lexer::read_word" % len(delims))
+    parse = set(rn.call_blocks(r"lexer::try_parse_number$"))
+    for ch in delims:
+        arm = na.get(ch)
+        ok = arm is not None and not arm[0] and bool(arm[2] & parse or arm[1] in parse)
+        R.inst("C12.d", "read_number finishes a number at %r" % ch, ok,
+               "Lexer::read_word treats %r as a delimiter, but Lexer::read_number %s: a number written directly before it "
+               "is lexed as an identifier (`2%sx` gives the symbol 2), so valid input is read as the wrong datum"
+               % (ch, "has no case for it" if arm is None else "does not finish the number there", ch), rn.loc(), sample=(ch in "{;"))
